@@ -52,8 +52,13 @@ class C07(Prop):
                 P = [[x if x <= rng.randint(1, n) else None for x in row] for row in P]
             ps = i % 2 == 0
             sp = [1] * n if ps else [rng.randint(1, 3) for _ in range(n)]
-            yield dict(entry=("ProbabilisticSerial.scf" if ps else "SimultaneousEating.scf"), family=("lottery_incomplete" if inc else "lottery"),
-                       P=P, speeds=sp, zi=bool(i % 3 == 0), seed=i, dtype=("float" if inc else rng.choice(["int64", "float"])))
+            c = dict(entry=("ProbabilisticSerial.scf" if ps else "SimultaneousEating.scf"), family=("lottery_incomplete" if inc else "lottery"),
+                     P=P, speeds=sp, zi=bool(i % 3 == 0), seed=i, dtype=("float" if inc else rng.choice(["int64", "float"])))
+            if not inc and i % 4 == 1:      # history: the same rule object was used on the same profile object with other speeds first
+                c["pre_speeds"] = [rng.choice([1, 2, 4, 5]) for _ in range(n)]; c["family"] = "lottery_history"
+            if not inc and i % 4 == 3:      # history: same rule object, same profile object, contents edited in place between the calls
+                c["inplace_first"] = [rng.sample(range(1, n + 1), n) for _ in range(n)]; c["family"] = "lottery_history"
+            yield c
 
     def run(self, case):
         from socialchoicekit.randomized_allocation import RandomSerialDictatorship, SimultaneousEating, ProbabilisticSerial
@@ -76,9 +81,19 @@ class C07(Prop):
         def go():
             if case["entry"].startswith("RandomSerial"):
                 return RandomSerialDictatorship(zero_indexed=case["zi"]).scf(StrictProfile.of(A))
-            if case["entry"].startswith("Probabilistic"):
-                return ProbabilisticSerial(zero_indexed=case["zi"]).scf(StrictProfile.of(A))
-            return SimultaneousEating(zero_indexed=case["zi"]).scf(StrictProfile.of(A), np.array(case["speeds"], dtype=float))
+            prof = StrictProfile.of(A)
+            rule = ProbabilisticSerial(zero_indexed=case["zi"]) if case["entry"].startswith("Probabilistic") else SimultaneousEating(zero_indexed=case["zi"])
+            call = (lambda sp: rule.scf(prof)) if case["entry"].startswith("Probabilistic") else (lambda sp: rule.scf(prof, np.array(sp, dtype=float)))
+            try:
+                if case.get("pre_speeds") is not None:
+                    call(case["pre_speeds"])
+                if case.get("inplace_first") is not None:
+                    keep = A.copy(); A[...] = np.array(case["inplace_first"], dtype=A.dtype)
+                    call(case["speeds"]); A[...] = keep
+            except Exception:  # noqa
+                pass
+            rec["choice"] = None
+            return call(case["speeds"])
         np.random.shuffle, np.random.choice = shuf, choice
         try:
             r = supervised(go, self.deadline)
